@@ -29,7 +29,7 @@ LIMIT_ERRORS = ['Resource limit (rlimit) exceeded', 'resource limit', 'rlimit']
 
 def verus_cmd(path, extra=()):
     return ['verus', path, '--edition', '2024', '--error-format=json', '--output-json', '--time',
-            '--multiple-errors', '6', '--no-report-long-running'] + list(extra)
+            '--multiple-errors', '3', '--no-report-long-running'] + list(extra)
 
 
 def run_verus(path, extra=(), timeout=1500):
@@ -196,14 +196,15 @@ def run_batch(batch_name, seed=0, keep=True, retry=True):
     if found != declared:
         res['status'] = 'tool'
         res['problems'].append('trusted ledger mismatch: undeclared=%s missing=%s' % (sorted(found - declared), sorted(declared - found)))
-    js, diags, dt, stderr = run_verus(path)
+    extra = list(getattr(mod, 'VERUS_ARGS', []))
+    js, diags, dt, stderr = run_verus(path, extra)
     errors, tool, limits, clauses = analyse(text, fnmap, js, diags)
     instab = []
     if retry and ([e for e in errors if not e['canary']] or limits) and not tool:
         # instability policy (3.1.6): reseed with a larger rlimit; an obligation that passes once is discharged
         still = None
         for k in range(2):
-            js2, diags2, dt2, _ = run_verus(path, ['--rlimit', '40', '--smt-option', f'smt.random_seed={seed * 7 + k + 1}'])
+            js2, diags2, dt2, _ = run_verus(path, ['--rlimit', str(getattr(mod, 'RETRY_RLIMIT', 40)), '--smt-option', f'smt.random_seed={seed * 7 + k + 1}'])
             e2, t2, l2, _ = analyse(text, fnmap, js2, diags2)
             key2 = set((e['fn'], e['msg'], e['line']) for e in e2 + l2)
             still = key2 if still is None else (still & key2)
@@ -220,6 +221,12 @@ def run_batch(batch_name, seed=0, keep=True, retry=True):
     if js is None or vr.get('encountered-vir-error') or tool:
         res['status'] = 'tool'
         res['problems'].append('verus front end / tool errors: ' + '; '.join(f"{t['msg']} @{t['line']}" for t in tool[:8]) + ('' if js else ' (no json; stderr tail: ' + stderr[-600:] + ')'))
+    # an rlimit hit while Verus searches for *further* errors in a function that already has a genuine failed obligation
+    # is a consequence of that failure, not a tool limit of its own
+    errfns = set(e['fn'] for e in errors if not e['canary'])
+    secondary = [l for l in limits if l['fn'] in errfns]
+    limits = [l for l in limits if l['fn'] not in errfns]
+    res['secondary_limits'] = [l['fn'] for l in secondary]
     if limits:
         res['status'] = 'tool'
         res['problems'].append('resource limit: ' + '; '.join(f"{t['fn']}" for t in limits[:8]))
@@ -248,7 +255,7 @@ def run_batch(batch_name, seed=0, keep=True, retry=True):
         'smt_ms': tm.get('smt', {}).get('total') if isinstance(tm.get('smt'), dict) else tm.get('smt'),
         'total_ms': tm.get('total'),
         'sha256': hashlib.sha256(text.encode()).hexdigest()[:16],
-        'cmd': ' '.join(verus_cmd(path)),
+        'cmd': ' '.join(verus_cmd(path, extra)),
     })
     return res
 
